@@ -908,7 +908,11 @@ func oracle(c Case) (out vkit.Outcome) {
 		r.adoptDefault(l)
 		// The default user the two constructors make must be the same user:
 		// same permissions, and a credential that accepts the same passwords.
-		ok = r.compareMaps("after-open", l[0], l[1])
+		if f, d := diffUsers(l[0][admin], l[1][admin], true); f != "" {
+			ok = r.fail(fmt.Sprintf("open: default user differs between stores field=%s default-password-given=%v", f, c.DefaultPassword != ""),
+				fmt.Sprintf("constructors called with default user %q, default password %q: the default user differs in %s: file vs db: %s", admin, c.DefaultPassword, f, d),
+				"the same default user from both constructors")
+		}
 	}
 	for i, op := range c.Ops {
 		if !ok {
@@ -1050,8 +1054,8 @@ func genOp(t *rapid.T) Op {
 }
 
 func gen(t *rapid.T) Case {
-	c := Case{Fresh: rapid.IntRange(0, 39).Draw(t, "fresh?") == 0}
-	n := rapid.IntRange(1, 24).Draw(t, "nops")
+	c := Case{Fresh: rapid.IntRange(0, 39).Draw(t, "fresh?") == 17}
+	n := rapid.IntRange(3, 24).Draw(t, "nops")
 	for i := 0; i < n; i++ {
 		c.Ops = append(c.Ops, genOp(t))
 	}
@@ -1086,7 +1090,7 @@ func TestC31(t *testing.T) {
 	vkit.Run(t, vkit.Spec[Case]{
 		ID:    "C31",
 		Level: "exploration",
-		Rule: "histories of 1..24 steps (write, read-modify-write of password/passkeys/last-token, grant/revoke a permission, delete, read, " +
+		Rule: "histories of 3..24 steps (write, read-modify-write of password/passkeys/last-token, grant/revoke a permission, delete, read, " +
 			"GetPermissions/GetPermission, list with and without suppression, flush, admin cache purge, close+reopen) over alice/bob/carol/dave and the " +
 			"default user admin, applied in lockstep to a file store and a SQLite store; mutating steps are followed by Flush or not. " +
 			"Non-trivial: the history reopens the stores while a write/delete has not been followed by an explicit Flush, or it re-creates a user it deleted; distinct by history.",
